@@ -1145,7 +1145,8 @@ class Exec:
     bound = self.bind_params(fdef, self_obj, args, kwargs, denv, node,
                              is_static)
     if contract is not None and not (sp and qualname in sp.inline):
-      return self.call_by_contract(contract, bound, node, modname)
+      return self.call_by_contract(contract, bound, node, modname,
+                                   ghost=getattr(self, '_ghost', False))
     if sp is not None and qualname in sp.inline:
       return self.inline(fdef, src, cs, bound, qualname)
     self.unsupported(node, 'call of %s.%s which has no contract' %
@@ -1220,7 +1221,7 @@ class Exec:
     self.unsupported(node, 'class %s without __init__' % cname)
 
   # -- call by contract ---------------------------------------------------
-  def call_by_contract(self, contract, bound, node, modname):
+  def call_by_contract(self, contract, bound, node, modname, ghost=False):
     ctx = self.ctx
     line = getattr(node, 'lineno', ctx.cur_line)
     ctx.cur_line = line
@@ -1232,10 +1233,22 @@ class Exec:
     old_ns = NS(ctx, dict(bound), heap=old_heap)
     ns = NS(ctx, dict(bound), heap=None, old=old_ns)
     callee = contract.qualname
+    if ghost and contract.memo:
+      mk = (callee,) + tuple(
+          (k, v.oid if isinstance(v, VObj) else str(v.flatten()))
+          for k, v in sorted(bound.items()))
+      m = ctx.memo.get(mk)
+      if m is not None and all(ctx.objects[oid].fields.get(f) is v
+                               for (oid, f), v in m['reads'].items()):
+        for (oid, f), v in m['writes'].items():
+          ctx.objects[oid].fields[f] = v
+        return m['result']
     for cl in contract.requires:
-      ctx.oblige(cl.fn(ns), '%s<-%s' % (callee, cl.label), 'pre',
-                 cl.props or contract.props)
-      ctx.assume(cl.fn(ns))
+      g = cl.fn(ns)
+      if not ghost:
+        ctx.oblige(g, '%s<-%s' % (callee, cl.label), 'pre',
+                   cl.props or contract.props)
+      ctx.assume(g)
     # exceptional exits: "raises E exactly when cond"
     for exc, cl in contract.raises.items():
       cond = to_term(cl.fn(ns))
@@ -1310,7 +1323,11 @@ class Exec:
               for f, v in rec.fields.items()}
     node = ast.Pass(lineno=ctx.cur_line)
     n_ob = len(ctx.unit.obligations)
-    r = self.call_repo(modname, qualname, self_obj, [], {}, node)
+    self._ghost = True
+    try:
+      r = self.call_repo(modname, qualname, self_obj, [], {}, node)
+    finally:
+      self._ghost = False
     del ctx.unit.obligations[n_ob:]      # ghost: no obligations of its own
     if restore:
       for (oid, f), v in before.items():
